@@ -1102,8 +1102,13 @@ def d_include(g: G, depth: int) -> List[str]:
 
 def d_replacement(g: G, depth: int, name: Optional[str] = None) -> List[str]:
     name = name or g.ch(["rep-inline", "rep-block", "rep-two", "prod"])
-    k = g.wch([(45, "inline"), (20, "two"), (15, "list"), (10, "code"), (5, "empty"), (5, "blocks")])
-    if k == "inline":
+    k = g.wch([(40, "inline"), (18, "two"), (12, "list"), (8, "code"), (5, "empty"), (5, "blocks"), (12, "chain")])
+    if k == "chain":
+        # a replacement that is nothing but (or mentions) another replacement of the same include: `|other|` alone on a line is a
+        # block-level substitution reference, so whether the outer name may be used inline depends on what the inner one holds
+        others = [x for x in ["rep-inline", "rep-block", "rep-two", "prod"] if x != name]
+        body = ["|" + g.ch(others) + "|"] if g.p(0.7) else [g.words(1, 2) + " |" + g.ch(others) + "| " + g.words(1, 2)]
+    elif k == "inline":
         body = [inline(g, 2)]
         if g.p(0.3):
             # one paragraph that is NOT all-inline: an inline hyperlink target is a block-level Target node
